@@ -61,14 +61,17 @@ def sublattices(tier, seed):
                 for k in sorted({0, 1, meta_len // 2, meta_len - 1}):
                     faults.append({'kind': 'fault', 'sizes': sizes, 'scheme': scheme, 'step': step, 'mode': f'tear:{k}', 'what': ' '.join(log[step - 1])})
     retry = [{'kind': 'refusal-retry', 'rule': r, 'pos': p, 'sizes': [2, 1, 2]} for r in RETRY_RULES for p in range(3)]
-    species = [{'kind': 'species-reject', 'layout': lay, 'session': ses, 'pos': pos, 'bad': bad}
+    species = [{'kind': 'species-reject', 'layout': lay, 'session': ses, 'pos': pos, 'bad': bad, 'which': which}
                for lay in ('single', 'assoc-together', 'assoc-mapped') for ses in ('create', 'append') for pos in ('first', 'after-good')
-               for bad in ('base-field', 'assoc-field') if not (lay == 'assoc-mapped' and ses == 'create') and not (lay == 'single' and bad == 'assoc-field')]
+               for bad in ('base-field', 'assoc-field') for which in ('nowhere', 'other-file')
+               if not (lay == 'assoc-mapped' and ses == 'create') and not (lay == 'single' and bad == 'assoc-field')
+               and not (which == 'other-file' and lay != 'assoc-mapped')]
     return [
         {'name': 'interrupted-merge', 'axes': {'scenario': [f'{s}/{c}' for s, c in scen], 'step': 'every intercepted call of the clean run', 'mode': ['before', 'after', 'tear:k (metadata write)']}, 'cases': faults, 'scenarios': info},
         {'name': 'refused-merge-retry', 'axes': {'rule': RETRY_RULES, 'pos': [0, 1, 2]}, 'cases': retry},
         {'name': 'rejected-add: species outside the species dimension of the file holding the field',
-         'axes': {'layout': ['single', 'assoc-together', 'assoc-mapped'], 'session': ['create', 'append'], 'position': ['first', 'after-good'], 'offending field in': ['base file', 'associated file']},
+         'axes': {'layout': ['single', 'assoc-together', 'assoc-mapped'], 'session': ['create', 'append'], 'position': ['first', 'after-good'], 'offending field in': ['base file', 'associated file'],
+                  'offending species': ['in no file', "only in the OTHER file's species dimension (separately created files)"]},
          'cases': species},
     ]
 
@@ -118,14 +121,22 @@ def species_case(tmp, case):
     base, assoc = tmp / 'b.nc', tmp / 'a.nc'
     two = lay != 'single'
 
+    which = case.get('which', 'nowhere')
+
     def traj(k, with_s2, offending=None):
+        # base-file field: CO2, H2O; associated-file field: CO2, NOx
         t = sm.make_traj(k, False)
         t.add_fields(fs['s1'])
-        t.sa = SpeciesValues({Species.CO2: 10.0 + k} if offending != 'base-field' else {Species.CO2: 10.0 + k, Species.HC: 1.0})
+        a = {Species.CO2: 10.0 + k, Species.H2O: 15.0 + k}
+        if offending == 'base-field':
+            a[Species.HC if which == 'nowhere' else Species.NOx] = 1.0
+        t.sa = SpeciesValues(a)
         if with_s2:
             t.add_fields(fs['s2'])
-            t.sb = SpeciesValues({Species.CO2: 20.0 + k, Species.NOx: 30.0 + k} if offending != 'assoc-field'
-                                 else {Species.CO2: 20.0 + k, Species.NOx: 30.0 + k, Species.SO2: 2.0})
+            b = {Species.CO2: 20.0 + k, Species.NOx: 30.0 + k}
+            if offending == 'assoc-field':
+                b[Species.SO2 if which == 'nowhere' else Species.H2O] = 2.0
+            t.sb = SpeciesValues(b)
         return t
 
     class Mapped:
@@ -136,7 +147,7 @@ def species_case(tmp, case):
 
     items = []
     vio = []
-    tag = f'{lay}/{ses}/{pos}/{bad}'
+    tag = f'{lay}/{ses}/{pos}/{bad}/{which}'
     # --- first session: create with one good trajectory (two for the append variants)
     kw = {'base_file': base}
     if lay == 'assoc-together':
